@@ -518,11 +518,27 @@ def build_problem(case):
     elif case['kind'] == 'approx':
         # low-flow convection approximation with T-dependent wall/coolant
         tdep = True
+        nd = int(wl.choose(rng, [1, 2, 2, 3]))
+        gapm = wl.choose(rng, ['flow', 'no_flow', 'duct_average'])
+        byp = wl.choose(rng, [0.0, wl.loguniform(rng, 0.2, 0.6),
+                              wl.loguniform(rng, 0.02, 0.2)])
+        tkw = None
+        if nd > 1 and rng.random() < 0.5:
+            # designs in which the pin bundle, not a gap, sets the step:
+            # wide, well-fed bypass gaps, no inter-assembly gap limit, and
+            # walls of clearly different thickness (outermost first)
+            w_in = float(rng.uniform(0.0007, 0.0015))
+            ws = [w_in * float(rng.uniform(1.5, 4.0)) for _ in range(nd - 1)]
+            tkw = {'wall': ws + [w_in],
+                   'byp_gap': [float(rng.uniform(0.0025, 0.005))
+                               for _ in range(nd)]}
+            byp = float(rng.uniform(0.4, 0.7))
+            gapm = wl.choose(rng, ['none', 'duct_average'])
         P, feats = wl.single_assembly(
-            rng, tdep=True, max_rings=4, length=0.25,
-            gap=wl.choose(rng, ['flow', 'no_flow', 'duct_average']),
+            rng, tdep=True, max_rings=4, length=0.25, gap=gapm,
             vel=wl.loguniform(rng, 0.005, 0.1), lf=False, regions=False,
-            conv_approx=True)
+            conv_approx=True, n_duct=nd, byp=byp, type_kw=tkw)
+        feats['bundle_limited_design'] = tkw is not None
         P['setup']['conv_approx_dz_cutoff'] = 0.1
         P['types']['a']['duct_material'] = 'ht9'
         P['bypass_fraction'] = wl.loguniform(rng, 0.02, 0.2)
@@ -532,7 +548,8 @@ def build_problem(case):
             rng, n_ring=2, tdep=tdep,
             gap=wl.choose(rng, ['flow', 'flow', 'no_flow', 'duct_average']),
             empty_frac=0.2, max_rings=4, length=0.3,
-            vel_range=(0.02, 5.0))
+            vel_range=(0.02, 5.0), coolant_pool=True, shared_flow=0.5,
+            n_types=int(wl.choose(rng, [1, 1, 2, 3])))
         P['bypass_fraction'] = wl.loguniform(rng, 1e-3, 0.2)
         feats['bypass_fraction'] = P['bypass_fraction']
     else:
@@ -559,6 +576,34 @@ def steps_ok(r, res, limit=4000):
     return True
 
 
+def check_own_limits(res, r, dzmax, key):
+    """The step requirement recorded for every assembly is the one its own
+    regions give between the inlet and its own estimated outlet temperature
+    (DASSH's limit functions re-run on the live assembly), and the selected
+    step does not exceed any of them."""
+    lims = []
+    with drive.quiet():
+        for ai, a in enumerate(r.assemblies):
+            own = float(dassh.assembly.calculate_min_dz(
+                a, r.inlet_temp, a._estimated_T_out, r._is_adiabatic)[0])
+            lims.append(own)
+            res.close('L_recorded_limit_is_own_limit',
+                      float(r.min_dz['dz'][ai]) - own, own, 1e-10,
+                      'step requirement recorded for an assembly differs '
+                      'from the limit of its own regions at its own '
+                      'temperatures', key,
+                      {'asm': a.id, 'recorded': float(r.min_dz['dz'][ai]),
+                       'own': own, 'T_out_est': float(a._estimated_T_out),
+                       'flow': float(a.flow_rate), 'type': a.name})
+    res.check('L_step_within_every_assembly_limit',
+              dzmax <= min(lims) * (1 + 1e-9),
+              'selected step %.6e exceeds the limit %.6e of assembly %d'
+              % (dzmax, min(lims), int(np.argmin(lims))), key,
+              {'dz': dzmax, 'limits': lims})
+    if len(set(np.round(lims, 14))) > 1:
+        res.count('L_cores_with_distinct_limits')
+
+
 def run_probe_case(case, res):
     P, feats = build_problem(case)
     tdep = feats['tdep']
@@ -570,6 +615,7 @@ def run_probe_case(case, res):
         dzmax = float(np.max(r.dz))
         feats['dz'] = dzmax
         feats['limit'] = [float(x) for x in r.min_dz['dz']]
+        check_own_limits(res, r, dzmax, key)
         pts = sorted(set([1, len(r.z) - 1]))
         rows = [0]
 
